@@ -60,6 +60,11 @@ impl Offset {
                 #[cfg(unix)]
                 return {
                     let result = fs::read("/etc/localtime");
+                    #[cfg(feature = "verif-hooks")]
+                    let result = match crate::verif_hooks::localtime_bytes() {
+                        Some(bytes) => Ok(bytes),
+                        None => result,
+                    };
                     match result {
                         Ok(bytes) => {
                             TimeZone::from_tzif(&bytes)
